@@ -629,12 +629,26 @@ def run(ctx: Any, prog: Program) -> None:
                   text='cache before blank')
     else:
         ctx.check('C10.B6', min(s_.lineno for s_ in stores) < blanks[0].lineno, bsp, blanks[0], 'ParsedLump.__get__ must cache the parsed value before blanking the raw lumps', text='cache before blank')
+    # looking must not be able to lose the data: the raw bytes stay in the lump until the reader has returned and its result is cached.  A
+    # store into some `.data` that comes before the reader call (a swap `data, lump.data = lump.data, b''` "to free the buffer early")
+    # leaves an empty lump behind when the reader raises, and the next save() writes it
+    reads6 = [c for c in ast.walk(g_) if isinstance(c, ast.Call) and dotted(c.func) == 'self._read']
+    drains6 = [c for c in ast.walk(g_) if isinstance(c, ast.Call) and dotted(c.func) == 'list' and c.args]
+    ctx.shape('C10.B6', bool(reads6), bsp, g_, 'call of self._read(...) found in ParsedLump.__get__', text='reader call')
+    data_stores = [t for a in ast.walk(g_) if isinstance(a, (ast.Assign, ast.AugAssign, ast.Delete)) for t0 in (a.targets if isinstance(a, (ast.Assign, ast.Delete)) else [a.target])
+                   for t in (t0.elts if isinstance(t0, (ast.Tuple, ast.List)) else [t0]) if isinstance(t, ast.Attribute) and t.attr == 'data']
+    last_use = max([c.lineno for c in reads6 + drains6] or [0])
+    for t in data_stores:
+        ctx.check('C10.B6', t.lineno > last_use, bsp, t, f'ParsedLump.__get__ overwrites `{U(t)}` before the reader has finished (the reader / the draining of its generator is at line {last_use}): if parsing raises, nothing is cached '
+                  'and the raw bytes are already gone - merely looking at a damaged view empties the lump for the next save()', text=f'`{U(t)}` kept until the reader is done')
+    ctx.check('C10.B6', True, bsp, g_, f'{len(data_stores)} store(s) into lump data examined', text='raw data stores after the reader')
     init = bsp.func('ParsedLump.__init__')
     ok = 'self.to_clear = (lump, *extra)' in U(init)
     ctx.shape('C10.B6', ok, bsp, init, 'to_clear must be exactly the lumps named in the view declaration (B1 is checked against that list)', text='to_clear = declaration')
 
 
 MUTANTS = [
+    {'id': 'get_swaps_raw_data_out_before_reading', 'file': 'bsp.py', 'find': "            data = instance.lumps[self.lump].data\n            LOGGER.debug('Load game lump {} ({} bytes)', self.lump, len(data))", 'replace': "            raw = instance.lumps[self.lump]\n            data, raw.data = raw.data, b''\n            LOGGER.debug('Load game lump {} ({} bytes)', self.lump, len(data))", 'expect': 'C10.B6'},
     {'id': 'lzma_decoder_split_swapped', 'file': 'binformat.py', 'find': "    pb = props // 5\n    lp = props % 5\n", 'replace': "    lp = props // 5\n    pb = props % 5\n", 'expect': 'C10.B10'},
     {'id': 'ok_lzma_decoder_split_divmod', 'file': 'binformat.py', 'find': "    lc = props % 9\n    props //= 9\n    pb = props // 5\n    lp = props % 5\n", 'replace': "    rest, lc = divmod(props, 9)\n    pb, lp = divmod(rest, 5)\n", 'expect': None},
     {'id': 'l4d2_header_rotated_in_helper', 'file': 'bsp.py', 'find': "    def save(self, filename: Optional[str] = None) -> None:", 'replace': "    def _lump_header(self, offset: int, length: int, version: int, fourcc: int) -> tuple:\n        header = (offset, length, version, fourcc)\n        if self.game_ver is GameVersion.L4D2:\n            header = header[-1:] + header[:-1]\n        return header\n\n    def save(self, filename: Optional[str] = None) -> None:", 'extra': [{'file': 'bsp.py', 'find': "                    if self.game_ver is GameVersion.L4D2:\n                        defer.set_data(lump_name, lump.version, file.tell(), len(lump_data), lump_fourcc)\n                    else:\n                        defer.set_data(lump_name, file.tell(), len(lump_data), lump.version, lump_fourcc)\n", 'replace': "                    defer.set_data(lump_name, *self._lump_header(file.tell(), len(lump_data), lump.version, lump_fourcc))\n"}], 'expect': 'C10.B4'},
